@@ -30,7 +30,9 @@ class LenBytes:
         return self.n
 
     def __bool__(self):
-        return self.n != 0
+        if self.n != 0:         # forks once when the length is symbolic
+            return True
+        return False
 
     def __getitem__(self, k):
         if not isinstance(k, slice):
